@@ -159,6 +159,54 @@ pub fn run() {
     return Case(cid, src, meta={"family": "unmockable", "kind": kind, "nontrivial": True, "methods": methods, "macro": macro})
 
 
+def hygiene_case(cid, rng):
+    """A mockable fn stamped out by macro_rules!: the attribute and some parameter names are written in the macro body,
+    other names come from the invocation (mixed hygiene); no_deps fns name their parameters in `unmock_with`."""
+    no_deps = rng.random() < 0.7
+    n = rng.randint(2, 4)
+    origins = [rng.choice(["caller", "macro"]) for _ in range(n)]
+    if len(set(origins)) == 1:
+        origins[0] = "caller" if origins[0] == "macro" else "macro"
+    used = {"caller": set(), "macro": set()}
+    names = []
+    for o in origins:
+        nm = rng.choice([x for x in ["a", "b", "inner", "c", "d"] if x not in used[o]][:3])
+        used[o].add(nm)
+        names.append(nm)
+    matcher, args, ps = ["$f:ident"], ["subj"], []
+    for i, (o, nm) in enumerate(zip(origins, names)):
+        if o == "caller":
+            matcher.append("$p%d:ident" % i)
+            args.append(nm)
+            ps.append("$p%d" % i)
+        else:
+            ps.append(nm)
+    fid = "%s::subj" % cid
+    deps_decl = "" if no_deps else "deps: &impl ::core::marker::Sized, "
+    dep_log = '"", 0' if no_deps else "::vrt::tn(deps), ::vrt::addr(deps)"
+    L = [APP_DEF, "macro_rules! make {", "    (%s) => {" % ", ".join(matcher),
+         "        #[::entrait::entrait(pub Subj, mock_api = SubjMock%s)] /*@inv*/" % (", no_deps" if no_deps else ""),
+         "        pub fn $f(%s%s) -> ::std::string::String { ::vrt::enter(\"%s\", %s, &[%s]); ::std::format!(\"%s\", %s) }" % (
+             deps_decl, ", ".join("%s: i32" % x for x in ps), fid, dep_log, ", ".join("&%s as &dyn ::core::fmt::Debug" % x for x in ps),
+             "|".join("{}" for _ in ps), ", ".join(ps)),
+         "    };", "}", "make!(%s);" % ", ".join(args)]
+    vals = ", ".join("%di32" % (101 + i) for i in range(n))
+    D = ["pub fn run() {",
+         '    ::vrt::phase("mock");',
+         '    { let u = ::unimock::Unimock::new(::unimock::MockFn::each_call(SubjMock, ::unimock::matching!(%s)).returns(::std::string::String::from("ANSWER_0")));' % vals,
+         '      let r = u.subj(%s); ::vrt::kv("r0", ::std::format!("{:?}", r)); }' % vals,
+         '    ::vrt::phase("partial:0");',
+         '    { let u = ::unimock::Unimock::new_partial(()); ::vrt::kv("u_addr", ::vrt::addr(&u)); ::vrt::kv("u_tn", ::vrt::tn(&u));',
+         "      let r = u.subj(%s); ::vrt::result(&r); }" % vals,
+         '    ::vrt::phase("impl:0");',
+         '    { let app = ::entrait::Impl::new(App { tag: 1, name: "n" }); let r = app.subj(%s); ::vrt::result(&r); }' % vals, "}"]
+    meta = {"family": "fnmod", "mode": "macro_rules", "nontrivial": True, "opts": [], "macro": "entrait",
+            "calls": [{"i": 0, "fn": fid, "args": [str(101 + i) for i in range(n)], "want_mock": '"ANSWER_0"', "deps_usable": not no_deps,
+                       "nested": [], "async": False, "no_deps": no_deps}],
+            "methods": None, "sigs": ["macro_rules subj names=%s origins=%s no_deps=%s" % (names, origins, no_deps)]}
+    return Case(cid, "\n".join(L + D) + "\n", meta=meta)
+
+
 def unmock_with_entries(rec):
     """Entries of `unmock_with = [..]` in the unimock attribute on the emitted trait, or None."""
     def find(ts):
@@ -277,7 +325,10 @@ def run(tier, seed):
     rng = core.rng_for(PROP, seed)
     cases = []
     for i in range(n):
-        if rng.random() < 0.85:
+        r = rng.random()
+        if r < 0.1:
+            cases.append(hygiene_case("c11h_%04d" % i, rng))
+        elif r < 0.85:
             cases.append(build_fnmod("c11_%04d" % i, rng))
         else:
             cases.append(build_unmockable("c11u_%04d" % i, rng))
